@@ -229,16 +229,28 @@ func (p *BlockPipeline) Submit(ctx context.Context, blockType uint, rawCbor []by
 	// We use a single blocking select to avoid sequence gaps that would occur
 	// if we allocated in a non-blocking attempt that failed.
 	item := NewBlockItem(blockType, rawCbor, tip, p.sequenceCounter.Add(1)-1)
+	if verifEnabled {
+		verifTrace("alloc", item, 0)
+	}
 
 	select {
 	case p.submitChan <- item:
+		if verifEnabled {
+			verifTrace("sub_ok", item, 0)
+		}
 		p.metrics.RecordSubmit()
 		return nil
 	case <-ctx.Done():
+		if verifEnabled {
+			verifTrace("sub_fail", item, 0)
+		}
 		// Context cancelled while waiting - sequence gap is acceptable
 		// because this typically means shutdown.
 		return ctx.Err()
 	case <-p.ctx.Done():
+		if verifEnabled {
+			verifTrace("sub_fail", item, 0)
+		}
 		return ErrPipelineStopped
 	}
 }
@@ -324,6 +336,9 @@ func (p *BlockPipeline) PendingCount() int {
 	applyPending := 0
 	if p.applyStage != nil {
 		applyPending = p.applyStage.PendingCount()
+	}
+	if verifEnabled {
+		verifTrace("pending_count", nil, channelDepth+applyPending)
 	}
 	return channelDepth + applyPending
 }
